@@ -580,9 +580,11 @@ theorem bind_ok {α β} {x : Rd α} {f : α → Rd β} {buf : Bytes} {st st' : D
     | err => simp at h
     | panic s => simp at h
 
-/-- `RData::read` returns what the codec returned -/
+/-- `RData::read` returns what the codec returned, and the codec consumed the whole sub-decoder -/
 theorem readRData_body {opq : Nat → Rd Bytes} {t : Nat} {buf : Bytes} {st st' : DSt} {d : RData}
-    (h : readRData opq t buf st = (.ok d, st')) : ∃ st1, readRDataBody opq t buf st = (.ok d, st1) := by
+    (h : readRData opq t buf st = (.ok d, st')) :
+    ∃ st1, readRDataBody opq t buf st = (.ok d, st1) ∧ buf.length ≤ st1.pos ∧
+      ¬ (t = 255 ∨ t = 252 ∨ t = 251) := by
   unfold readRData at h
   simp only [C01.bind_eq, C01.pure_eq] at h
   obtain ⟨start, s0, h0, g1⟩ := bind_ok h
@@ -592,12 +594,20 @@ theorem readRData_body {opq : Nat → Rd Bytes} {t : Nat} {buf : Bytes} {st st' 
   · rw [if_pos hm] at g1; simp [Rd.fail] at g1
   rw [if_neg hm] at g1
   obtain ⟨result, s1, h1, g2⟩ := bind_ok g1
-  obtain ⟨idx, s2, _, g3⟩ := bind_ok g2
+  obtain ⟨idx, s2, hi2, g3⟩ := bind_ok g2
+  have hs2 : s2 = s1 := by simp only [Rd.index, Prod.mk.injEq] at hi2; exact hi2.2.symm
+  subst hs2
   split at g3
   · simp [Rd.panic] at g3
-  obtain ⟨empty, s3, _, g4⟩ := bind_ok g3
+  obtain ⟨empty, s3, hi3, g4⟩ := bind_ok g3
+  simp only [Rd.isEmpty, Prod.mk.injEq, Outcome.ok.injEq] at hi3
   split at g4
   · simp [Rd.fail] at g4
+  rename_i hemp
+  have hend : buf.length ≤ s2.pos := by
+    rw [← hi3.1] at hemp
+    simp only [Bool.not_eq_true, Bool.not_eq_false', decide_eq_true_eq] at hemp
+    omega
   cases result with
   | none => simp [Rd.fail] at g4
   | some v =>
@@ -610,7 +620,7 @@ theorem readRData_body {opq : Nat → Rd Bytes} {t : Nat} {buf : Bytes} {st st' 
     | ok a =>
       intro h1
       simp only [Prod.mk.injEq, Outcome.ok.injEq, Option.some.injEq] at h1
-      exact ⟨s4, by rw [← g4.1, ← h1.1]⟩
+      exact ⟨s4, by rw [← g4.1, ← h1.1], by rw [h1.2]; exact hend, hm⟩
     | err => intro h1; simp at h1
     | panic s => intro h1; simp at h1
 
@@ -633,7 +643,7 @@ theorem parseTxt_ne (d : Bytes) (hd : d ≠ []) (ss : List Bytes) (h : (parseTxt
 theorem rdata_nonEmpty {opq : Nat → Rd Bytes} {t : Nat} {buf : Bytes} {st st' : DSt} {d : RData}
     (hlt : st.pos < buf.length) (h : readRData opq t buf st = (.ok d, st')) (hp : d.proved = true)
     (hty : d.typeOK t) : d.nonEmpty := by
-  obtain ⟨st1, hb⟩ := readRData_body h
+  obtain ⟨st1, hb, _, _⟩ := readRData_body h
   have hdrop : buf.drop st.pos ≠ [] := by
     intro hc
     have := congrArg List.length hc
